@@ -110,8 +110,22 @@ def run_job(job):
                 vals = [rng.choice([1, 2, 3, 4, 6, -2, -3, 12, 5]) for _ in keys]
                 xq = MultiVector.fromkeysvalues(alg, keys, [Fraction(v) for v in vals])
                 nsq = xq.normsq()
-                if tuple(nsq.keys()) not in ((0,), ()) or not nsq.values():
+                if tuple(nsq.keys()) not in ((0,), ()):
                     continue                                            # norm needs a scalar squared norm
+                if not nsq.values() and kind == 'norm' and job.get('null_norms', True):
+                    # a NULL element (squared norm 0, stored as the zero multivector): its norm is 0
+                    xf = MultiVector.fromkeysvalues(alg, keys, [float(v) for v in vals])
+                    base['x'] = ratmv(xq)
+                    try:
+                        base['r'] = ratmv(stored(xf).norm())
+                    except K.EncodeError:
+                        raise
+                    except Exception as e:   # noqa: BLE001
+                        base['raised'] = type(e).__name__
+                    events.append(base)
+                    continue
+                if not nsq.values():
+                    continue
                 q = Fraction(nsq.values()[0])
                 if q <= 0:
                     continue
